@@ -133,6 +133,18 @@ def run(ctx):
         for t, v in p.cons:
             if t[0] == 'app' and t[1].endswith('is_part_closed'):
                 closed = (v != 0) if isinstance(v, int) else True
+            # closedness decided inline: only a full-point equality of first and last counts
+            if t[0] == 'bin' and t[1] in ('Eq', 'Ne') and t[4] == 'partial_eq' and 'first' in absint.term_str(t) and 'last' in absint.term_str(t):
+                tv = (v != 0) if isinstance(v, int) else True
+                closed = tv if t[1] == 'Eq' else (not tv)
+            if t[0] == 'ret' and isinstance(t[2], str) and t[2].endswith('PartialEq::eq'):
+                closed = (v != 0) if isinstance(v, int) else True
+        nonempty = any(t[0] == 'discr' and t[1][0] == 'first' and v == 1 for t, v in p.cons) or closed is not None
+        if closed is None and any(e[0] in ('push', 'mutate') or True for e in p.eff) and \
+                not any(t[0] == 'discr' and t[1][0] in ('first', 'last') and v == 0 for t, v in p.cons):
+            close_ok = False
+            why_c.append("whether the ring is closed is not decided by `first == last` on this path (atoms: %s)"
+                         % [absint.term_str(t)[:50] for t, v in p.cons][:3])
         pushes = [(i, e) for i, e in enumerate(p.eff) if e[0] == 'push']
         revs = [(i, e) for i, e in enumerate(p.eff) if e[0] == 'mutate']
         first_some = None
